@@ -27,19 +27,20 @@ type Anchors struct {
 	Line, Config, HSet, HNode                       *types.Named
 	CfgMe, CfgPass, CfgRecover, CfgFlood, CfgServer *types.Var
 
-	Teardown          *ssa.Function   // contains dispatch of DISCONNECTED (the event function)
-	TeardownCore      *ssa.Function   // clears the connected flag and waits (== Teardown unless split into a helper)
-	Connect           *ssa.Function   // stores true to Connected (or calls the trivial setter that does)
-	FlagSetter        *ssa.Function   // the trivial helper that stores true, when the connect routine delegates that
-	FlagClearer       *ssa.Function   // the trivial helper that stores false, when the teardown delegates that
-	ConnectSet        ssa.Instruction // the instruction in Connect at which the flag becomes true (store or setter call)
-	Members           []*ssa.Function // spawned under Add on WG
-	ConnDispatch      *ssa.Function   // (*Conn).dispatch
-	SetDispatch       *ssa.Function   // (*hSet).dispatch
-	Raw               *ssa.Function
-	IntTable, StTable map[string]*ssa.Function // handler tables
-	Errs              []string
-	Soft              []string // anchors that only some properties need (reported as information)
+	Teardown                *ssa.Function   // contains dispatch of DISCONNECTED (the event function)
+	TeardownCore            *ssa.Function   // clears the connected flag and waits (== Teardown unless split into a helper)
+	Connect                 *ssa.Function   // stores true to Connected (or calls the trivial setter that does)
+	FlagSetter              *ssa.Function   // the trivial helper that stores true, when the connect routine delegates that
+	FlagClearer             *ssa.Function   // the trivial helper that stores false, when the teardown delegates that
+	ConnectSet              ssa.Instruction // the instruction in Connect at which the flag becomes true (store or setter call)
+	Members                 []*ssa.Function // spawned under Add on WG
+	ConnDispatch            *ssa.Function   // (*Conn).dispatch
+	SetDispatch             *ssa.Function   // (*hSet).dispatch
+	Raw                     *ssa.Function
+	IntTable, StTable       map[string]*ssa.Function // handler tables (pure forwarders resolved to their delegate)
+	IntTableRaw, StTableRaw map[string]*ssa.Function // the entries as written
+	Errs                    []string
+	Soft                    []string // anchors that only some properties need (reported as information)
 }
 
 func (a *Anchors) miss(format string, args ...interface{}) {
@@ -365,6 +366,21 @@ func (p *Prog) ResolveAnchors() *Anchors {
 	}
 	a.IntTable = p.handlerTable("intHandlers")
 	a.StTable = p.handlerTable("stHandlers")
+	// a table entry that only forwards (func (conn) h_X(line) { conn.x(line) }) stands for the method it calls:
+	// the rules read what a handler does, and that is in the delegate. The entries as written stay available.
+	a.IntTableRaw, a.StTableRaw = map[string]*ssa.Function{}, map[string]*ssa.Function{}
+	for k, f := range a.IntTable {
+		a.IntTableRaw[k] = f
+		if d := p.forwardsTo(f); d != nil {
+			a.IntTable[k] = d
+		}
+	}
+	for k, f := range a.StTable {
+		a.StTableRaw[k] = f
+		if d := p.forwardsTo(f); d != nil {
+			a.StTable[k] = d
+		}
+	}
 	if len(a.IntTable) == 0 || len(a.StTable) == 0 {
 		a.miss("handler tables intHandlers/stHandlers")
 	}
@@ -587,4 +603,36 @@ func (c *Ctx) derivesFromIO(v ssa.Value) bool {
 		}
 	}
 	return false
+}
+
+// forwardsTo: fn (a handler: receiver, line) does nothing but call one
+// unexported method of its receiver with the same line, a method that nothing
+// else calls or takes the value of: that method; otherwise nil.
+func (p *Prog) forwardsTo(fn *ssa.Function) *ssa.Function {
+	if fn == nil || len(fn.Blocks) != 1 || len(fn.Params) != 2 {
+		return nil
+	}
+	var only *ssa.Call
+	n, other := 0, false
+	funcInstrs(fn, func(in ssa.Instruction) {
+		switch t := in.(type) {
+		case *ssa.Call:
+			n++
+			only = t
+		case *ssa.Return, *ssa.DebugRef:
+		default:
+			other = true
+		}
+	})
+	if n != 1 || other || only == nil || only.Call.IsInvoke() {
+		return nil
+	}
+	h := only.Call.StaticCallee()
+	if h == nil || !p.InModuleFn(h) || h.Package() != fn.Package() || h.Blocks == nil || (h.Object() != nil && h.Object().Exported()) || addrTaken(h) || len(h.Params) != 2 {
+		return nil
+	}
+	if len(only.Call.Args) != 2 || only.Call.Args[0] != ssa.Value(fn.Params[0]) || only.Call.Args[1] != ssa.Value(fn.Params[1]) || len(p.staticCallers(h)) != 1 {
+		return nil
+	}
+	return h
 }
